@@ -72,15 +72,18 @@ class Kernel:
         self.off = 0                  # byte offset of ptr_var
         self.max_off = 0
 
-    def load(self, width_bytes, signed_char=False):
-        if self.off + width_bytes > self.nbytes:
-            raise NotLinear('load past the modelled input (%d + %d > %d)' % (self.off, width_bytes, self.nbytes))
+    def load(self, width_bytes, signed_char=False, at=None):
+        off = self.off if at is None else at
+        if off + width_bytes > self.nbytes:
+            raise NotLinear('load past the modelled input (%d + %d > %d)' % (off, width_bytes, self.nbytes))
+        if at is not None:
+            self.max_off = max(self.max_off, off + width_bytes)
         rows = []
         for i in range(32):
             if i < 8 * width_bytes:
-                rows.append(1 << (32 + 8 * self.off + i))
+                rows.append(1 << (32 + 8 * off + i))
             elif signed_char and width_bytes == 1:
-                rows.append(1 << (32 + 8 * self.off + 7))
+                rows.append(1 << (32 + 8 * off + 7))
             else:
                 rows.append(0)
         return Aff(rows)
@@ -131,6 +134,10 @@ class Kernel:
                         if (tj >> i) & 1:
                             rows[i] ^= idx.rows[j]
                 return Aff(rows)
+            # ((const uint32_t *) p)[k]: a word of the input at a constant index
+            width = {'u32': 4, 'i32': 4, 'u8': 1, 'i8': 1, 'u16': 2}.get(e0.get('t', ''))
+            if base.get('op') == 'ref' and base.get('name') == self.ptr_var and const_of(e0['k'][1]) is not None and width:
+                return self.load(width, signed_char=(e0.get('t') == 'i8'), at=self.off + const_of(e0['k'][1]) * width)
             raise NotLinear('subscript of %s' % base.get('name'))
         if op == 'un' and e0['o'] == '*':
             inner = strip_casts_keep(e0['k'][0])
